@@ -1052,6 +1052,10 @@ def classify(obligation, op, kinds, datas, status, obs):
             and _is_nested(datas[0]) and status == 'raises'
             and str(obs).startswith('AttributeError')):
         return 'C15.lift:nary-nested-channellist'
+    if op.name == '__eq__' and 'operand' in fams and status == 'mismatch':
+        # Operand.__eq__ is its own method (value.__eq__(other)), whatever
+        # the kind of the other operand
+        return '%s:__eq__:operand' % obligation
     key = '%s:%s:%s' % (obligation, op.name, family_key(kinds))
     return key + (':raises' if status == 'raises' else '')
 
